@@ -230,7 +230,7 @@ theorem invB_lock {P : Proto} {limit pre I : Nat} {c : Cfg} (h : InvB P limit pr
     · intro _ j _; exact hfree j
 
 theorem invB_step {P : Proto} {limit pre I : Nat} {c : Cfg} (h : InvB P limit pre I c) (tid : Nat)
-    (hm : P.mutex = true) (he : P.early = true) (hf : P.final = .plain) :
+    (hm : P.mutex = true) (he : P.early = true) (hf : P.final = .plain) (hfu : P.fused = false) :
     InvB P limit pre I (stepThread P limit c tid) := by
   have old := h.thr tid
   unfold stepThread
@@ -260,12 +260,13 @@ theorem invB_step {P : Proto} {limit pre I : Nat} {c : Cfg} (h : InvB P limit pr
     have hI : (c.threads tid).inst = I := old.inst hne
     split
     · rename_i hpc
-      simp only [hm, if_true]
+      simp only [hm, hfu, if_true, Bool.false_eq_true, if_false]
       exact invB_lock h tid hI hpc
     · exact ⟨base_blk (c' := blkCfg c tid) h.base tid rfl rfl rfl, h.thr, h.excl⟩
     · -- locked: read
       rename_i hpc
       have hni : inside (c.threads tid).pc = true := by rw [hpc]; rfl
+      simp only [hfu, Bool.false_eq_true, if_false]
       unfold readStep
       simp only [he, if_true]
       by_cases hc : P.cnt c.occ.length = 0
@@ -303,6 +304,8 @@ theorem invB_step {P : Proto} {limit pre I : Nat} {c : Cfg} (h : InvB P limit pr
           simp only [PC.passed.injEq] at hh
           rw [← hh.1]; exact hs
     · exact h
+    · simp only [hfu, Bool.false_eq_true, if_false]
+      exact h
   · -- a request of another client
     rename_i hops
     have hne : (c.threads tid).ops ≠ [] := by rw [hops]; simp
@@ -321,14 +324,15 @@ theorem invB_step {P : Proto} {limit pre I : Nat} {c : Cfg} (h : InvB P limit pr
       · exact invB_stp_in h tid _ hni (by intro s k hh; cases hh) (by intro s k hh; cases hh)
     · exact h
     · exact h
+    · exact h
 
 theorem invB_run {P : Proto} {limit pre I : Nat} (hm : P.mutex = true) (he : P.early = true) (hf : P.final = .plain)
-    (σ : List Nat) (c : Cfg) (h : InvB P limit pre I c) : InvB P limit pre I (run P limit c σ) := by
+    (hfu : P.fused = false) (σ : List Nat) (c : Cfg) (h : InvB P limit pre I c) : InvB P limit pre I (run P limit c σ) := by
   induction σ generalizing c with
   | nil => exact h
   | cons t r ih =>
     simp only [run, List.foldl_cons]
-    exact ih _ (invB_step h t hm he hf)
+    exact ih _ (invB_step h t hm he hf hfu)
 
 theorem invB_init (P : Proto) (limit pre I : Nat) (progs : List (List Op))
     (h : capOk P.zeroUnl limit pre = true) :
